@@ -25,6 +25,10 @@ def itermethod(*names):
     return deco
 
 
+OPS_METHODS = {'add': 'Add', 'sub': 'Sub', 'mul': 'Mul', 'div': 'Div', 'rem': 'Rem', 'bitand': 'BitAnd', 'bitor': 'BitOr',
+               'bitxor': 'BitXor', 'shl': 'Shl', 'shr': 'Shr'}
+
+
 class Models:
     def __init__(self):
         self.extra = {}
@@ -79,6 +83,37 @@ class Models:
                 return {'min': ord_min, 'max': ord_max, 'cmp': ord_cmp}[meth]
             if trait == 'std::cmp::PartialOrd' and meth in ('lt', 'le', 'gt', 'ge'):
                 return lambda I, a, meth=meth: ord_rel(I, a, meth)
+            if trait.startswith('std::ops::') and meth in OPS_METHODS:
+                opn = OPS_METHODS[meth]
+                tyc = ty.lstrip('&').strip()
+
+                def opm(I, a, opn=opn, tyc=tyc):
+                    x, y = deref(a[0]), deref(a[1])
+                    if opn in ('Add', 'Sub', 'Mul') and not is_sym(x) and not is_sym(y):
+                        r = I.binop(opn + 'WithOverflow', x, y, tyc)
+                        if r[1]:
+                            raise RustPanic(f'attempt to {opn.lower()} with overflow')
+                        return r[0]
+                    return I.binop(opn, x, y, tyc)
+
+                return opm
+            if trait.startswith('std::ops::') and meth in ('add_assign', 'sub_assign', 'mul_assign', 'bitand_assign', 'bitor_assign'):
+                opn = OPS_METHODS[meth[:-7]]
+                tyc = ty.lstrip('&').strip()
+
+                def opa(I, a, opn=opn, tyc=tyc):
+                    slot = a[0].slot
+                    x, y = slot.get(), deref(a[1])
+                    if opn in ('Add', 'Sub', 'Mul') and not is_sym(x) and not is_sym(y):
+                        r = I.binop(opn + 'WithOverflow', x, y, tyc)
+                        if r[1]:
+                            raise RustPanic(f'attempt to {opn.lower()} with overflow')
+                        slot.set(r[0])
+                    else:
+                        slot.set(I.binop(opn, x, y, tyc))
+                    return Agg()
+
+                return opa
             if trait == 'std::iter::FromIterator' and meth == 'from_iter':
                 return lambda I, a: collect(I, [into_iter(I, a)])
         return None
@@ -968,6 +1003,33 @@ def it_next(I, it):
     if k == 'cloned':
         v = it_next(I, it.inner)
         return None if v is None else clone_val(deref(v))
+    if k == 'flat_map':
+        while True:
+            if it.cur is not None:
+                v = it_next(I, it.cur)
+                if v is not None:
+                    return v
+                it.cur = None
+            x = it_next(I, it.inner)
+            if x is None:
+                return None
+            it.cur = as_iter(I, I.call_closure(it.f, [x]) if it.f is not None else x)
+    if k == 'inspect':
+        v = it_next(I, it.inner)
+        if v is not None:
+            I.call_closure(it.f, [Ref(Slot([v], 0))])
+        return v
+    if k == 'map_while':
+        if it.done:
+            return None
+        v = it_next(I, it.inner)
+        if v is None:
+            return None
+        r = I.call_closure(it.f, [v])
+        if r.variant == 'None':
+            it.done = True
+            return None
+        return r.fields[0]
     if k == 'peekable':
         if it.peeked is not None:
             v = it.peeked[0]
@@ -1300,6 +1362,26 @@ def _(I, a):
 @itermethod('skip_while')
 def _(I, a):
     return Iter('skip_while', inner=as_iter(I, a[0]), f=a[1], done=False)
+
+
+@itermethod('flat_map')
+def _(I, a):
+    return Iter('flat_map', inner=as_iter(I, a[0]), f=a[1], cur=None)
+
+
+@itermethod('flatten')
+def _(I, a):
+    return Iter('flat_map', inner=as_iter(I, a[0]), f=None, cur=None)
+
+
+@itermethod('inspect')
+def _(I, a):
+    return Iter('inspect', inner=as_iter(I, a[0]), f=a[1])
+
+
+@itermethod('map_while')
+def _(I, a):
+    return Iter('map_while', inner=as_iter(I, a[0]), f=a[1], done=False)
 
 
 @itermethod('cloned', 'copied')
